@@ -147,6 +147,10 @@ func (g *gate) hold(actor, on string, n int) {
 	g.mu.Unlock()
 }
 
+// actorCallbacks: actor name -> what to do right after that actor's COMMIT has taken effect
+// (still inside the driver's Commit: before any of the transaction's commit hooks run)
+var actorCallbacks sync.Map
+
 func (g *gate) hook(ctx context.Context, kind CallKind, q string, after bool) error {
 	actor, _ := ctx.Value(actorKey{}).(string)
 	if actor == "" {
@@ -155,6 +159,11 @@ func (g *gate) hook(ctx context.Context, kind CallKind, q string, after bool) er
 	ev := string(kind)
 	if after {
 		ev += "-after"
+	}
+	if ev == "commit-after" {
+		if cb, ok := actorCallbacks.LoadAndDelete(actor); ok {
+			cb.(func())()
+		}
 	}
 	g.mu.Lock()
 	on, ok := g.holdOn[actor]
@@ -277,6 +286,64 @@ func wakeScenarios() []wakeScenario {
 			baseSetup(run, false, false)
 			run(&Op{Kind: "SetDelay", Name: "projects/p/subscriptions/s0", Delay: 300 * time.Millisecond})
 			return "projects/p/subscriptions/s0", func() { e.Exec(ctx, pub(1, ""), &Dump{}) }
+		}},
+		{"publish-by-a-caller-that-goes-away-right-after-its-commit", func(e *Env, run func(*Op) *Obs) (string, func()) {
+			// the publisher's context ends (client disconnect, deadline) after its COMMIT took effect
+			// and before the transaction's commit hooks run: the message is durable, so the waiter
+			// must hear of it all the same
+			baseSetup(run, false, false)
+			return "projects/p/subscriptions/s0", func() {
+				actor := "writer-" + uuid.New().String()
+				wctx, cancel := context.WithCancel(context.WithValue(ctx, actorKey{}, actor))
+				defer cancel()
+				actorCallbacks.Store(actor, func() { cancel() })
+				a := actions.NewPublishMessage(actions.PublishMessageParams{TopicName: "projects/p/topics/t0", Payload: []byte(`{"late":1}`), Attributes: map[string]string{"x": "v"}})
+				_ = e.Client.DoCtxTx(wctx, nil, a.Execute)
+			}
+		}},
+		{"zero-deadline-nack-of-522-ids-spanning-subscriptions", func(e *Env, run func(*Op) *Obs) (string, func()) {
+			// one ModifyAckDeadline(0) far larger than any internal batch size: 520 leased deliveries
+			// of subscription c and a few of s0 - arranged so that s0's ids all sort into the first
+			// 500 - every subscription named by it is woken
+			baseSetup(run, false, false)
+			run(&Op{Kind: "CreateSub", Sub: &SubReq{Name: "projects/p/subscriptions/c", Topic: "projects/p/topics/t0"}})
+			for i := 0; i < 520; i += 100 {
+				k := 100
+				if 520-i < k {
+					k = 520 - i
+				}
+				run(pub(k, ""))
+			}
+			oc := run(&Op{Kind: "Pull", Name: "projects/p/subscriptions/c", Max: 1000})
+			oa := run(&Op{Kind: "Pull", Name: "projects/p/subscriptions/s0", Max: 1000})
+			cIDs, aIDs := mustIDs(oc), mustIDs(oa)
+			if len(aIDs) > 12 {
+				aIDs = aIDs[:12]
+			}
+			for {
+				all := append(append([]string{}, cIDs...), aIDs...)
+				sort.Strings(all) // canonical UUID strings sort like the ids
+				late := map[string]bool{}
+				for i, id := range all {
+					if i >= 500 {
+						late[id] = true
+					}
+				}
+				var keep []string
+				for _, id := range aIDs {
+					if !late[id] {
+						keep = append(keep, id)
+					}
+				}
+				if len(keep) == len(aIDs) {
+					break
+				}
+				aIDs = keep
+			}
+			ids := append(append([]string{}, cIDs...), aIDs...)
+			return "projects/p/subscriptions/s0", func() {
+				e.Exec(ctx, &Op{Kind: "ModAck", Name: "projects/p/subscriptions/c", AckIDs: ids, Seconds: 0}, &Dump{})
+			}
 		}},
 		{"dead-letter-forward-into-the-topic", func(e *Env, run func(*Op) *Obs) (string, func()) {
 			baseSetup(run, false, true)
